@@ -141,7 +141,11 @@ impl ServerInfo {
             }
 
             let mut split = line.split_whitespace();
-            match split.next().unwrap() {
+            let Some(keyword) = split.next() else {
+                // a line made of white space only
+                continue;
+            };
+            match keyword {
                 "8BITMIME" => {
                     features.insert(Extension::EightBitMime);
                 }
